@@ -121,36 +121,82 @@ def run_call(call):
 
 
 def main():
-    if sys.argv[1] == "--one":
+    """parent: every call runs in a sacrificial child (guarded calls alone, the others in chunks), children run
+    concurrently, print one JSON line per finished call and are killed at their deadline; a call without an answer is a
+    time-out.  An address-space limit keeps a runaway loop from exhausting the machine."""
+    if sys.argv[1] == "--chunk":
+        try:
+            import resource
+            resource.setrlimit(resource.RLIMIT_AS, (24 << 30, 24 << 30))
+        except Exception:  # noqa
+            pass
         jobs = json.load(open(sys.argv[2]))
-        call = jobs["calls"][int(sys.argv[3])]
-        print(json.dumps(run_call(call)))
+        for i in range(int(sys.argv[3]), int(sys.argv[4])):
+            r = run_call(jobs["calls"][i])
+            r["_i"] = i
+            sys.stdout.write(json.dumps(r) + "\n")
+            sys.stdout.flush()
         return
     jobs = json.load(open(sys.argv[1]))
+    calls = jobs["calls"]
     guard_s = jobs.get("guard_s", 20)
-    # guarded calls run concurrently in sacrificial subprocesses, each with its own wall-clock limit
-    procs = {}
-    for i, call in enumerate(jobs["calls"]):
-        if call.get("guard"):
-            procs[i] = (subprocess.Popen([sys.executable, os.path.abspath(__file__), "--one", sys.argv[1], str(i)],
-                                         stdout=subprocess.PIPE, stderr=subprocess.PIPE, text=True), time.time())
+    chunk_s = jobs.get("chunk_s", 120)
+    chunks = []
+    plain = [i for i, c in enumerate(calls) if not c.get("guard")]
+    nproc = max(1, min(8, len(plain) // 10 or 1))
+    size = (len(plain) + nproc - 1) // nproc if plain else 0
+    # chunks are contiguous index ranges of the non-guarded calls (they are submitted in order)
+    ranges = []
+    run = []
+    for i, c in enumerate(calls):
+        if c.get("guard"):
+            if run:
+                ranges.append((run[0], run[-1] + 1, chunk_s)); run = []
+            ranges.append((i, i + 1, guard_s))
+        else:
+            run.append(i)
+            if len(run) >= max(size, 1):
+                ranges.append((run[0], run[-1] + 1, chunk_s)); run = []
+    if run:
+        ranges.append((run[0], run[-1] + 1, chunk_s))
+    procs = []
+    pending = list(ranges)
     out = {}
-    for i, call in enumerate(jobs["calls"]):
-        if not call.get("guard"):
-            out[i] = run_call(call)
-    for i, (p, t0) in procs.items():
-        call = jobs["calls"][i]
-        try:
-            so, se = p.communicate(timeout=max(0.5, guard_s - (time.time() - t0)))
-            if p.returncode == 0 and so.strip():
-                out[i] = json.loads(so.strip().split("\n")[-1])
-            else:
-                out[i] = {"id": call["id"], "outcome": "crash", "exc": "rc=%s %s" % (p.returncode, se[-300:])}
-        except subprocess.TimeoutExpired:
-            p.kill()
-            p.communicate()
-            out[i] = {"id": call["id"], "outcome": "timeout", "exc": "no result after %s s (wall-clock guard)" % guard_s}
-    print(json.dumps({"results": [out[i] for i in range(len(jobs["calls"]))]}))
+    running = []
+    while pending or running:
+        while pending and len(running) < 10:
+            a, b, lim = pending.pop(0)
+            p = subprocess.Popen([sys.executable, os.path.abspath(__file__), "--chunk", sys.argv[1], str(a), str(b)],
+                                 stdout=subprocess.PIPE, stderr=subprocess.PIPE, text=True)
+            running.append((p, a, b, time.time() + lim))
+        time.sleep(0.1)
+        for item in list(running):
+            p, a, b, deadline = item
+            if p.poll() is None and time.time() < deadline:
+                continue
+            timed_out = p.poll() is None
+            if timed_out:
+                p.kill()
+            so, se = p.communicate()
+            for line in so.split("\n"):
+                if line.strip():
+                    try:
+                        r = json.loads(line)
+                        out[r.pop("_i")] = r
+                    except Exception:  # noqa
+                        pass
+            first_missing = True
+            for i in range(a, b):
+                if i not in out:
+                    if timed_out and first_missing:
+                        out[i] = {"id": calls[i]["id"], "outcome": "timeout", "exc": "no result within the wall-clock guard"}
+                    elif timed_out:
+                        out[i] = {"id": calls[i]["id"], "outcome": "skipped", "exc": "an earlier call of the same chunk never returned"}
+                    else:
+                        out[i] = {"id": calls[i]["id"], "outcome": "crash", "exc": "rc=%s %s" % (p.returncode, se[-300:])}
+                    first_missing = False
+            running.remove(item)
+    print(json.dumps({"results": [out[i] for i in range(len(calls))]}))
 
 
 if __name__ == "__main__":
